@@ -18,7 +18,7 @@ namespace DustVerif.Tree
 
 inductive Err where
   | alreadyDeleted | preconditionNotMet | badParameter | notEnabled | illegalOperation | outOfResources
-  | inconsistentPolicy
+  | inconsistentPolicy | timeout
   deriving DecidableEq, Repr
 
 /-- build profile of the Rust code: `debug` = overflow checks on (`+= 1` past the rail panics), `release` = wraps -/
@@ -337,6 +337,9 @@ inductive Op where
   | createSub (ph : Nat) (auto : Bool)
   | deleteSub (via : Nat) (r : GroupRef)
   | createTopic (ph : Nat) (name : String) (keyed : Bool)
+  /-- `find_topic`; `discovered` = a topic of that name is in the participant's `discovered_topic_list` (a parameter:
+      discovery is not part of this model) -/
+  | findTopic (ph : Nat) (name : String) (keyed : Bool) (discovered : Bool)
   | deleteTopic (via : Nat) (r : TopicRef)
   /-- `valid` = the filter expression and its parameters pass the check of `create_content_filtered_topic`
       (`<member> <= …` or `<member> = …` on an INT32 / string member of the related type, first parameter an integer) -/
@@ -443,6 +446,42 @@ def createTopic (s : St) (ph : Nat) (name : String) (keyed : Bool) : St × Res :
         let x : Topic := { part := p.uid, uid := n, name := name, keyed := keyed,
                            enabled := p.enabled && p.autoenable }   -- :289 enable_topic
         ({ s with topicEver := setTo s.topicEver p.uid (n + 1), topics := s.topics ++ [x] }, .handle (topicHandle x))
+
+/-- participant_methods.rs `find_topic` + participant_entity.rs `DomainParticipantEntity::find_topic`: a local topic of that
+    name → its handle (nothing is created); else a discovered topic → a NEW local Topic entity whose handle is built from
+    `topic_counter` BEFORE the checked increment (exhausted counter = "not found"), enabled at once, never announced; else
+    (or when the counter is exhausted) the caller waits and gets Timeout -/
+def findTopicOp (s : St) (ph : Nat) (name : String) (keyed : Bool) (discovered : Bool) : St × Res :=
+  match findPart s ph with
+  | none => (s, .err .alreadyDeleted)
+  | some p =>
+    match findTopic s p.uid name with
+    | some t => (s, .handle (topicHandle t))
+    | none =>
+      if !discovered then (s, .err .timeout)
+      else
+        let n := s.topicEver p.uid
+        if overflows n U16 then (s, .err .timeout)
+        else
+          let x : Topic := { part := p.uid, uid := n, name := name, keyed := keyed, enabled := true }
+          ({ s with topicEver := setTo s.topicEver p.uid (n + 1), topics := s.topics ++ [x] }, .handle (topicHandle x))
+
+/-- the seeded order (seed_C35_c): the counter is incremented FIRST and the handle built from the new value, so the next
+    `create_topic` (which uses the value before its own increment) hands out the same handle again -/
+def findTopicOpSeeded (s : St) (ph : Nat) (name : String) (keyed : Bool) (discovered : Bool) : St × Res :=
+  match findPart s ph with
+  | none => (s, .err .alreadyDeleted)
+  | some p =>
+    match findTopic s p.uid name with
+    | some t => (s, .handle (topicHandle t))
+    | none =>
+      if !discovered then (s, .err .timeout)
+      else
+        let n := s.topicEver p.uid
+        if overflows n U16 then (s, .err .timeout)
+        else
+          let x : Topic := { part := p.uid, uid := n + 1, name := name, keyed := keyed, enabled := true }
+          ({ s with topicEver := setTo s.topicEver p.uid (n + 1), topics := s.topics ++ [x] }, .handle (topicHandle x))
 
 /-- domain_participant.rs:205 (the two handles of the mail), participant_methods.rs:303 -/
 def deleteTopic (s : St) (via : Nat) (r : TopicRef) : St × Res :=
@@ -658,6 +697,7 @@ def step (s : St) (op : Op) : St × Res :=
   | .createSub ph a => createSub s ph a
   | .deleteSub via r => deleteSub s via r
   | .createTopic ph n k => createTopic s ph n k
+  | .findTopic ph n k d => findTopicOp s ph n k d
   | .deleteTopic via r => deleteTopic s via r
   | .createCft r n v => createCft s r n v
   | .deleteCft ph n => deleteCft s ph n
